@@ -958,6 +958,69 @@ package gohlslib
 //@ end
 
 // ---------------------------------------------------------------------------------------
+// C01: the public Write* entry points hand the unit, unchanged, to the front end of its codec together with the
+// muxer track registered for the caller's Track
+//@ func Muxer.WriteAV1
+//@   props C01
+//@   nosafety
+//@   noframe
+//@   nocallpre
+//@   modifies *
+//@   ensures calls("muxerSegmenter.writeAV1") == 1 && callarg("muxerSegmenter.writeAV1", 0, 0) == old(m.segmenter) && (old(has(m.mtracksByTrack, track)) ==> callarg("muxerSegmenter.writeAV1", 0, 1) == old(m.mtracksByTrack[track])) && (!old(has(m.mtracksByTrack, track)) ==> callarg("muxerSegmenter.writeAV1", 0, 1) == nil)
+//@        && callarg("muxerSegmenter.writeAV1", 0, 2) == ntp && callarg("muxerSegmenter.writeAV1", 0, 3) == pts && callarg("muxerSegmenter.writeAV1", 0, 4) == tu
+//@ end
+
+//@ func Muxer.WriteVP9
+//@   props C01
+//@   nosafety
+//@   noframe
+//@   nocallpre
+//@   modifies *
+//@   ensures calls("muxerSegmenter.writeVP9") == 1 && callarg("muxerSegmenter.writeVP9", 0, 0) == old(m.segmenter) && (old(has(m.mtracksByTrack, track)) ==> callarg("muxerSegmenter.writeVP9", 0, 1) == old(m.mtracksByTrack[track])) && (!old(has(m.mtracksByTrack, track)) ==> callarg("muxerSegmenter.writeVP9", 0, 1) == nil)
+//@        && callarg("muxerSegmenter.writeVP9", 0, 2) == ntp && callarg("muxerSegmenter.writeVP9", 0, 3) == pts && callarg("muxerSegmenter.writeVP9", 0, 4) == frame
+//@ end
+
+//@ func Muxer.WriteH265
+//@   props C01
+//@   nosafety
+//@   noframe
+//@   nocallpre
+//@   modifies *
+//@   ensures calls("muxerSegmenter.writeH265") == 1 && callarg("muxerSegmenter.writeH265", 0, 0) == old(m.segmenter) && (old(has(m.mtracksByTrack, track)) ==> callarg("muxerSegmenter.writeH265", 0, 1) == old(m.mtracksByTrack[track])) && (!old(has(m.mtracksByTrack, track)) ==> callarg("muxerSegmenter.writeH265", 0, 1) == nil)
+//@        && callarg("muxerSegmenter.writeH265", 0, 2) == ntp && callarg("muxerSegmenter.writeH265", 0, 3) == pts && callarg("muxerSegmenter.writeH265", 0, 4) == au
+//@ end
+
+//@ func Muxer.WriteH264
+//@   props C01
+//@   nosafety
+//@   noframe
+//@   nocallpre
+//@   modifies *
+//@   ensures calls("muxerSegmenter.writeH264") == 1 && callarg("muxerSegmenter.writeH264", 0, 0) == old(m.segmenter) && (old(has(m.mtracksByTrack, track)) ==> callarg("muxerSegmenter.writeH264", 0, 1) == old(m.mtracksByTrack[track])) && (!old(has(m.mtracksByTrack, track)) ==> callarg("muxerSegmenter.writeH264", 0, 1) == nil)
+//@        && callarg("muxerSegmenter.writeH264", 0, 2) == ntp && callarg("muxerSegmenter.writeH264", 0, 3) == pts && callarg("muxerSegmenter.writeH264", 0, 4) == au
+//@ end
+
+//@ func Muxer.WriteOpus
+//@   props C01
+//@   nosafety
+//@   noframe
+//@   nocallpre
+//@   modifies *
+//@   ensures calls("muxerSegmenter.writeOpus") == 1 && callarg("muxerSegmenter.writeOpus", 0, 0) == old(m.segmenter) && (old(has(m.mtracksByTrack, track)) ==> callarg("muxerSegmenter.writeOpus", 0, 1) == old(m.mtracksByTrack[track])) && (!old(has(m.mtracksByTrack, track)) ==> callarg("muxerSegmenter.writeOpus", 0, 1) == nil)
+//@        && callarg("muxerSegmenter.writeOpus", 0, 2) == ntp && callarg("muxerSegmenter.writeOpus", 0, 3) == pts && callarg("muxerSegmenter.writeOpus", 0, 4) == packets
+//@ end
+
+//@ func Muxer.WriteMPEG4Audio
+//@   props C01
+//@   nosafety
+//@   noframe
+//@   nocallpre
+//@   modifies *
+//@   ensures calls("muxerSegmenter.writeMPEG4Audio") == 1 && callarg("muxerSegmenter.writeMPEG4Audio", 0, 0) == old(m.segmenter) && (old(has(m.mtracksByTrack, track)) ==> callarg("muxerSegmenter.writeMPEG4Audio", 0, 1) == old(m.mtracksByTrack[track])) && (!old(has(m.mtracksByTrack, track)) ==> callarg("muxerSegmenter.writeMPEG4Audio", 0, 1) == nil)
+//@        && callarg("muxerSegmenter.writeMPEG4Audio", 0, 2) == ntp && callarg("muxerSegmenter.writeMPEG4Audio", 0, 3) == pts && callarg("muxerSegmenter.writeMPEG4Audio", 0, 4) == aus
+//@ end
+
+// ---------------------------------------------------------------------------------------
 // C10 / C11 / C13: client (sequential logic; goroutines, channels and HTTP are outside the VCs)
 
 //@ func fmp4PickLeadingTrack
